@@ -648,7 +648,9 @@ func main() {
 	r.Assume("go.opentelemetry.io/otel propagation.TraceContext is correct (it is the propagator under which the carrier is exercised)",
 		"the wire part uses real sockets to kfake; its only timing element is a 120 s safety-net context that yields an infrastructure error, never a verdict",
 		"Set on an absent key appends at the end; Set on a present key rewrites the first header with that key (what Get reads)")
-	partA(r)
+	if os.Getenv("VERIF_C37_ONLY") != "wire" { // debugging aid: run only the wire part
+		partA(r)
+	}
 	partB(r)
 	r.Finish()
 }
